@@ -45,3 +45,7 @@ SHAPE_KEYS: set[tuple[str, str]] = {
     ("C29.R2", "start"),
     ("C29.R2", "trait"),
 }
+
+# rule <prop>.M1 (xsa/memo_rule.py): a new memoisation site that passes the decidable tests (key completeness, float keys,
+# mutated cached results) is "cannot decide", because staleness is not decided
+SHAPE_KEYS |= {(f"C{n:02d}.M1", k) for n in range(1, 30) for k in ("unreviewed-cache", "unreviewed-visited-mark")}
